@@ -9,7 +9,6 @@
 
 use reftex::fix::{self, NlWarning};
 use serde_json::{json, Value};
-use std::collections::BTreeMap;
 use tfm::{Char, FixWord, NextLargerProgram, NextLargerProgramWarning};
 use vcore::{catch, Acc, Ctx, Level};
 
@@ -51,10 +50,10 @@ fn text_ranges(quick: bool) -> Vec<(u64, u64)> {
     if !quick {
         return vec![(0, ALL)];
     }
-    // |x| < 2^24 (every value that is legal as a font dimension, |x| < 16.0) ...
-    let mut r = vec![(0, 1 << 24), (ALL - (1 << 24), ALL)];
+    // |x| < 2^25 (|value| < 32.0: every value that is legal as a font dimension, |value| < 16.0, and as many again) ...
+    let mut r = vec![(0, 1 << 25), (ALL - (1 << 25), ALL)];
     // ... and windows of +-4096 around +-2^k up to the ends of the 32-bit range
-    for k in 24..=31u32 {
+    for k in 25..=31u32 {
         let p = 1u64 << k;
         r.push((p.saturating_sub(4096), (p + 4096).min(ALL)));
         let q = ALL - p;
@@ -93,24 +92,25 @@ fn fontdimen_reals(pl: &str) -> Vec<&str> {
 /// One property list holding the patterns `bits[..]` as parameters 1..=n.
 fn check_fix_batch(idx: u64, bits: &[u32], acc: &mut Acc) {
     let first = bits[0];
-    let case = |bad: Option<u32>| json!({"kind": "fixbatch", "first": first, "count": bits.len(), "bits": bad, "value": bad.map(|b| format!("FixWord({})", b as i32))});
+    let case = |bad: Option<u32>| json!({"kind": "fixbatch", "first": first, "count": bits.len(), "patterns": bits, "bits": bad, "value": bad.map(|b| format!("FixWord({}) = {}", b as i32, fix::print_fix(b as i32)))});
     // model
     let texts: Vec<String> = bits.iter().map(|b| fix::print_fix(*b as i32)).collect();
     let mut outside = false;
+    let (mut seven, mut negfrac, mut beyond) = (0u64, 0u64, 0u64);
     for (b, t) in bits.iter().zip(&texts) {
         let x = *b as i32;
-        acc.eval();
+        acc.evals += 1;
         if x & 0xfffff != 0 {
-            acc.nontrivial();
+            acc.nontrivial += 1;
         }
         if fix::text_used_rounding_branch(t) {
-            acc.count("seven_digit_fraction");
+            seven += 1;
         }
         if x < 0 && x & 0xfffff != 0 {
-            acc.count("negative_with_fraction");
+            negfrac += 1;
         }
         if (x as i64).abs() >= 16 << 20 {
-            acc.count("beyond_16");
+            beyond += 1;
         }
         match fix::parse_fix(t) {
             Ok(v) if v == x as i64 => {}
@@ -120,6 +120,11 @@ fn check_fix_batch(idx: u64, bits: &[u32], acc: &mut Acc) {
                 acc.fail(idx, case(Some(*b)), format!("{x}"), format!("{other:?}"), format!("MODEL: PLtoTF §62-66 applied to TFtoPL §40-43 text {t:?} does not give the value back"));
                 return;
             }
+        }
+    }
+    for (name, k) in [("seven_digit_fraction", seven), ("negative_with_fraction", negfrac), ("beyond_16", beyond)] {
+        if k > 0 {
+            acc.count_n(name, k);
         }
     }
     // 1a: Display of every value
@@ -184,9 +189,14 @@ fn check_fix_batch(idx: u64, bits: &[u32], acc: &mut Acc) {
         return;
     }
     acc.class(if outside { "batch with -2048.0" } else { "batch round-trips" });
+    let mut by_digits = [0u64; 10];
     for t in &texts {
-        let digits = t.split('.').nth(1).map(|f| f.len()).unwrap_or(0);
-        acc.class(&format!("fraction digits={digits}"));
+        by_digits[t.split('.').nth(1).map(|f| f.len()).unwrap_or(0).min(9)] += 1;
+    }
+    for (digits, k) in by_digits.iter().enumerate() {
+        if *k > 0 {
+            *acc.classes.entry(format!("fraction digits={digits}")).or_insert(0) += k;
+        }
     }
 }
 
@@ -358,7 +368,7 @@ fn check_compress(idx: u64, values: &[i64], max: u8, acc: &mut Acc, case: &dyn F
         acc.fail(idx, case(), format!("tolerance {best} (smallest d whose greedy cover has <= {m} classes)"), format!("largest class spread {spread}; {}", tdesc()), "the tolerance used is not the smallest possible");
         return;
     }
-    // how does the table relate to PLtoTF's own table?
+    // how does the table relate to PLtoTF's own table? (recorded, not judged)
     if n <= m {
         let want: Vec<i64> = std::iter::once(0).chain(sorted.iter().copied()).collect();
         if table.iter().map(|f| f.0 as i64).collect::<Vec<_>>() != want {
@@ -368,16 +378,18 @@ fn check_compress(idx: u64, values: &[i64], max: u8, acc: &mut Acc, case: &dyn F
         acc.class("no compression needed");
     } else {
         let got: Vec<i64> = table[1..].iter().map(|f| f.0 as i64).collect();
+        let got_index: Vec<usize> = sorted.iter().map(|v| map[&FixWord(*v as i32)].get() as usize).collect();
         let pl = fix::pltotf_compress(&sorted, m);
         let gr = fix::greedy_compress(&sorted, m).unwrap();
-        let rel = if got == pl.reps {
-            "table = PLtoTF's"
-        } else if got.len() == gr.reps.len() && got.iter().zip(&gr.reps).all(|(a, b)| (a - b).abs() <= 1) {
-            "table = full greedy cover (PLtoTF stops merging when `excess` reaches 0) or midpoint rounded the other way"
+        let midpoints = |reps: &[i64]| if got == reps { "PLtoTF's midpoints l+(u-l) div 2" } else { "midpoint (l+u)/2 truncated toward zero where PLtoTF has l+(u-l) div 2" };
+        let rel = if got_index == pl.index {
+            format!("PLtoTF's partition, {}", midpoints(&pl.reps))
+        } else if got_index == gr.index {
+            format!("full greedy cover where PLtoTF stops merging once `excess` values are removed, {}", midpoints(&gr.reps))
         } else {
-            "table = another minimal-tolerance partition"
+            "another minimal-tolerance partition".to_string()
         };
-        acc.class(&format!("compressed, classes={} of {m}: {rel}", classes.min(20)));
+        acc.class(&format!("compressed to {} classes: {rel}", if classes == m { "exactly `limit`" } else { "fewer than `limit`" }));
     }
 }
 
@@ -412,7 +424,7 @@ const SHAPES: u64 = 10;
 // Part 4: next larger
 // ------------------------------------------------------------------------------------------------
 
-const CODES: [u8; 7] = [0, 3, 65, 127, 128, 254, 255];
+const CODES: [u8; 8] = [0, 3, 65, 127, 128, 200, 254, 255];
 
 fn check_next_larger(idx: u64, n: usize, f: &[u64], mask: u64, drop: bool, reversed: bool, acc: &mut Acc) {
     acc.eval();
@@ -449,10 +461,24 @@ fn check_next_larger(idx: u64, n: usize, f: &[u64], mask: u64, drop: bool, rever
     if nonex >= 1 {
         acc.count("nl_nonexistent_target");
     }
-    if mw.iter().any(|w| matches!(w, NlWarning::Cycle { original, next_larger } if original != next_larger)) && (0..n).any(|i| f[i] != 0 && g[CODES[i] as usize].is_some() && fix::chain(&g, CODES[i]).iter().any(|c| g[*c as usize].is_none() && link[*c as usize].is_some())) {
-        acc.count("nl_path_into_cut_cycle");
+    {
+        // a character outside every cycle whose links lead into a cycle
+        let mut on_cycle = [false; 256];
+        for w in &mw {
+            if let NlWarning::Cycle { original, next_larger } = w {
+                on_cycle[*original as usize] = true;
+                let mut r = *next_larger;
+                while r != *original {
+                    on_cycle[r as usize] = true;
+                    r = link[r as usize].expect("a cycle is closed");
+                }
+            }
+        }
+        if (0..n).any(|i| !on_cycle[CODES[i] as usize] && fix::chain(&g, CODES[i]).iter().any(|c| on_cycle[*c as usize])) {
+            acc.count("nl_path_into_cut_cycle");
+        }
     }
-    let probe: Vec<u8> = CODES[..n].iter().copied().chain([200u8]).collect();
+    let probe: Vec<u8> = CODES[..n].iter().copied().chain([201u8]).collect();
     let want: Vec<Vec<u8>> = probe.iter().map(|c| fix::chain(&g, *c)).collect();
     if want.iter().any(|c| c.len() >= 2) || !mw.is_empty() {
         acc.nontrivial();
@@ -700,7 +726,7 @@ fn main() {
         let n = total(&tr);
         let batches = n.div_ceil(BATCH);
         let bounds = if ctx.quick() {
-            format!("{n} fix_word patterns: all |x| < 2^24 (= |value| < 16.0), +-4096 around +-2^k for k = 24..31, and the unit intervals at +-100, 999, 1000, 2046, 2047; {BATCH} per generated property list ({batches} lists)")
+            format!("{n} fix_word patterns: all |x| < 2^25 (= |value| < 32.0), +-4096 around +-2^k for k = 25..31, and the unit intervals at +-100, 999, 1000, 2046, 2047; {BATCH} per generated property list ({batches} lists)")
         } else {
             format!("all 2^32 fix_word patterns, {BATCH} per generated property list ({batches} lists)")
         };
@@ -748,7 +774,7 @@ fn main() {
     }
     // ---- part 3
     {
-        let maxlen = ctx.pick(5u32, 7u32);
+        let maxlen = ctx.pick(6u32, 8u32);
         let n = vcore::strings_upto(7, maxlen) - 1;
         // one index per (sequence, limit): limit runs over 1..=maxlen, limits above the length are skipped
         ctx.family("compress-sequences", &format!("every sequence (order and multiplicity kept) of 1..={maxlen} values over the lattice {LAT7:?} x every limit 1..=length"), n * maxlen as u64, |i, acc| {
@@ -759,7 +785,7 @@ fn main() {
             }
             check_compress(i, &seq, limit as u8, acc, &|| json!({"kind": "compress", "values": seq, "limit": limit}));
         });
-        let bits = ctx.pick(14usize, 18usize);
+        let bits = ctx.pick(16usize, 20usize);
         let lats = &lats;
         let per_subset = (bits * TRANSFORMS.len()) as u64;
         let n = 2 * (1u64 << bits) * per_subset;
@@ -789,7 +815,7 @@ fn main() {
     }
     // ---- part 4
     {
-        let nmax = ctx.pick(6usize, 7usize);
+        let nmax = ctx.pick(7usize, 8usize);
         for n in 1..=nmax {
             let radices = nl_space(n);
             ctx.family(&format!("nextlarger-{n}"), &format!("every partial functional graph on {n} characters (codes {:?}), every 'character exists' mask on the first {} of them, TFtoPL (drop) and PLtoTF (keep) mode, edges given in ascending and descending order", &CODES[..n], n.min(4)), vcore::product(&radices), |i, acc| {
@@ -821,14 +847,8 @@ fn replay(case: &Value, acc: &mut Acc) {
     let u = |k: &str| case[k].as_u64().unwrap_or(0);
     match case["kind"].as_str() {
         Some("fixbatch") => {
-            let first = u("first") as u32;
-            let bits: Vec<u32> = (0..u("count")).map(|k| first.wrapping_add(k as u32)).collect();
-            // batches are runs of consecutive patterns except where a quick-tier range ends; replay the
-            // failing value alone as well
+            let bits: Vec<u32> = case["patterns"].as_array().map(|a| a.iter().filter_map(|v| v.as_u64()).map(|v| v as u32).collect()).unwrap_or_default();
             check_fix_batch(0, &bits, acc);
-            if let Some(b) = case["bits"].as_u64() {
-                check_fix_batch(0, &[b as u32], acc);
-            }
         }
         Some("scaled") => check_scaled(0, case["x"].as_i64().unwrap_or(0) as i32, case["design_size"].as_i64().unwrap_or(0) as i32, acc),
         Some("compress") => {
@@ -848,5 +868,4 @@ fn replay(case: &Value, acc: &mut Acc) {
             std::process::exit(2);
         }
     }
-    let _: BTreeMap<(), ()> = BTreeMap::new();
 }
